@@ -17,7 +17,7 @@ from .c10 import is_closed, tri_area, tri_volume
 from .c17 import build as build17
 
 KINDS = ["mesh", "mesh", "mesh", "points", "path2d", "path3d", "primitive", "scene", "voxel"]
-CLASSES = mx.CLASSES_3D + ["tiny_below", "tiny_above", "rot_below", "rot_above"]
+CLASSES = mx.CLASSES_3D + ["tiny_below", "tiny_above", "rot_below", "rot_above", "ppm_scale"]
 OPS = ["apply_transform", "apply_scale", "apply_translation", "inverse_pair", "compose_pair", "bad_shape", "read"]
 PREREADS = ["face_normals", "vertex_normals", "mass", "edges", "face_adjacency", "bounds", "area", "triangles", "paths", "discrete", "polygons", "length",
             "face_angles", "vertex_defects", "extents", "centroid", "scale", "area_faces", "edges_unique_length", "face_adjacency_angles", "bounding_box", "polygons_closed", "polygons_full", "convex_hull", "kdtree", "identifier"]
@@ -37,6 +37,9 @@ def band_matrix(rng, cls):
         M[:3, 3] = [3e-9, -2e-9, 1e-9]
     elif cls == "tiny_above":
         M[:3, 3] = [3e-8, -2e-8, 5e-8]
+    elif cls == "ppm_scale":
+        # a scale a few parts per million away from 1 and nothing else: far above the 1e-8 shortcut, within numpy's default rtol
+        M[:3, :3] = np.eye(3) * (1.0 + rng.choice([2e-6, 5e-6, 8e-6]))
     elif cls == "rot_below":
         M = mx.hom(mx.rodrigues(mx.rand_unit(rng), 4e-7), mx.rand_translation(rng))
     else:
@@ -118,9 +121,12 @@ class C04(World):
             cls = rng.choice(["translation", "rigid", "uniform_scale", "similarity", "mirror", "aniso", "tiny_below", "rot_above"])
         elif kind in ("path2d",):
             cls = rng.choice(["translation", "rigid", "uniform_scale", "similarity", "mirror", "tiny_below", "tiny_above"])
+        elif kind == "scene":
+            # (a scene graph repairs world matrices within 1e-5 of a rotation to exactly rigid - documented: no ppm scales there)
+            cls = rng.choice([c for c in CLASSES if c != "ppm_scale"])
         else:
             cls = rng.choice(CLASSES)
-        M = band_matrix(rng, cls) if cls in ("tiny_below", "tiny_above", "rot_below", "rot_above") else mx.make(rng, cls)
+        M = band_matrix(rng, cls) if cls in ("tiny_below", "tiny_above", "rot_below", "rot_above", "ppm_scale") else mx.make(rng, cls)
         return cls, M.tolist()
 
     def generate(self, rng, cfg):
